@@ -586,8 +586,10 @@ def pa(t, ind):
 GTYPE = {"vecn": "(list nat)", "usize": "nat", "isize": "Z", "elem": "(T A)", "bool": "bool", "vec": "(list (T A))", "mat": "(matrix A)",
          "poly": "(list (T A))", "unit": "unit", "lit": "nat"}
 LISTS = {"vec": "elem", "vecn": "usize"}          # list-like containers and the type of their elements
+SCALARS = {"elem"}                                # scalar sorts with + - * / neg of an Arith (extended by the tables)
 def gtype(ty):
     if isinstance(ty, tuple) and ty[0] == "sumty": return "SUMTYPE"
+    if isinstance(ty, tuple) and ty[0] == "fn": return "(" + " -> ".join(gtype(x) for x in ty[1]) + " -> res %s)" % gtype(ty[2])
     if isinstance(ty, tuple) and ty[0] == "tuple": return "(" + " * ".join(gtype(x) for x in ty[1]) + ")"
     if isinstance(ty, tuple) and ty[0] == "opt": return "(option %s)" % gtype(ty[1])
     if ty in GTYPE: return GTYPE[ty]
@@ -660,6 +662,10 @@ def rust_type(txt, selfty):
     if re.match(r"^Polynomial<(T|f64)>$", t): return "poly"
     for pat, ty in RUST_TYPE_RULES:
         if re.match(pat, t): return ty
+    m = re.match(r"^dynFn\((.*)\)->(.*)$", t)
+    if m:                                                # &dyn Fn(X) -> Y : a user closure, which may panic: X -> res Y
+        a, r = rust_type(m.group(1), selfty), rust_type(m.group(2), selfty)
+        if all(not (isinstance(x, tuple) and x[0] == "unknown") for x in (a, r)): return ("fn", [a], r)
     m = re.match(r"^\((.*)\)$", t)
     if m and m.group(1) == "": return "unit"
     if m:
@@ -724,7 +730,7 @@ class Translator:
                 x = float(m.group(1))
                 if x == 0.0: return ("(@zero A)", "elem")
                 if x == 1.0: return ("(@one A)", "elem")
-                if self.spec.get("sarith") and x == 2.0: return ("(add (@one A) (@one A))", "elem")
+                if (self.spec.get("sarith") or self.spec.get("lit2")) and x == 2.0: return ("(add (@one A) (@one A))", "elem")
                 self.bad("floating-point literal %s (only 0.0 / 1.0 have a meaning over an arbitrary Arith)" % txt)
             self.bad("numeric literal %r" % txt)
         if k == "var":
@@ -734,13 +740,14 @@ class Translator:
                 if c: return c
                 self.bad("unknown identifier `%s`" % e[1])
             if v in env.uninit: self.bad("`%s` is read before it is assigned (declared by a `let` without initialiser)" % e[1])
+            if v in getattr(self, "killed", ()): self.bad("`%s` is read after a call whose effect on it the call table does not model" % e[1])
             return (v.g, v.ty)
         if k == "un":
             op = e[1]
             if op in ("&", "&mut", "*"): return self.ex(e[2], env, B)
             a, ta = self.ex(e[2], env, B)
             if op == "-":
-                if ta == "elem": return ("(neg %s)" % a, "elem")
+                if ta in SCALARS: return ("(neg %s)" % a, ta)
                 if ta in ("isize",): return ("(- %s)%%Z" % a, "isize")
                 if ta == "lit": return ("(-%s)%%Z" % a, "isize")
                 if ("-", ta) in self.tb.UNOPS: return self.apply_fn(self.tb.UNOPS[("-", ta)], [a], B)
@@ -858,10 +865,13 @@ class Translator:
             if op in cmpm: return (cmpm[op] % (a, b), "bool")
             if op == ">": return ("(%s <? %s)%%Z" % (b, a), "bool")
             if op == ">=": return ("(%s <=? %s)%%Z" % (b, a), "bool")
-        if ta == "elem":
-            if op in ("+", "-", "*"): return ("(%s %s %s)" % ({"+": "add", "-": "sub", "*": "mul"}[op], a, b), "elem")
+        if ta in SCALARS:
+            # "elem" = the element type T of the Arith; further scalar sorts (e.g. "celem" = Complex<f64> over the Arith CArith S)
+            # use the same operations of their own Arith (Coq infers it from the operand types)
+            if op in ("+", "-", "*"): return ("(%s %s %s)" % ({"+": "add", "-": "sub", "*": "mul"}[op], a, b), ta)
             if op == "/":
-                v = self.fresh("q"); B.append(("bind", ("v", v), ("app", "div", [g_raw(a), g_raw(b)]))); return (v, "elem")
+                v = self.fresh("q"); B.append(("bind", ("v", v), ("app", "div", [g_raw(a), g_raw(b)]))); return (v, ta)
+        if ta == "elem":
             cmpm = {"==": "(eqb %s %s)", "!=": "(negb (eqb %s %s))", "<": "(ltb %s %s)", "<=": "(leb %s %s)", ">": "(gtb %s %s)"}
             if op in cmpm: return (cmpm[op] % (a, b), "bool")
             if op == ">=": return ("(leb %s %s)" % (b, a), "bool")
@@ -978,6 +988,12 @@ class Translator:
             avals.append(t)
         outs = ent.get("out", ["ret"])
         t = ent["g"].format(r, *avals)
+        for kname in ent.get("kills", []):
+            # the callee modifies this operand and the model function does not return its new value: it must not be read again
+            pl = strip(recv) if kname == "recv" else strip(args[int(kname[3:])])
+            if pl[0] != "var" or env.lookup(pl[1]) is None: self.bad("call table: `.%s` kills an operand that is not a variable" % name)
+            if not hasattr(self, "killed"): self.killed = set()
+            self.killed.add(env.lookup(pl[1]))
         if outs == ["ret"]:
             if ent.get("fallible"):
                 v = self.fresh("r"); B.append(("bind", ("v", v), g_raw(t))); return (v, ent["ret"])
@@ -1008,6 +1024,16 @@ class Translator:
         if f[0] == "var": path = f[1]
         elif f[0] == "path": path = "::".join(f[1])
         else: self.bad("call of a computed function")
+        fv = env.lookup(path) if f[0] == "var" else None
+        if fv is not None and isinstance(fv.ty, tuple) and fv.ty[0] == "fn":
+            # a call of a `&dyn Fn` parameter: arguments left to right, then the (fallible) application
+            if len(args) != len(fv.ty[1]): self.bad("closure `%s` called with %d arguments" % (path, len(args)))
+            avals = []
+            for a, pty in zip(args, fv.ty[1]):
+                t, ty = self.ex(a, env, B)
+                if ty != pty: self.bad("argument of the closure `%s` has type %s (expected %s)" % (path, ty, pty))
+                avals.append(t)
+            v = self.fresh("y"); B.append(("bind", ("v", v), ("app", fv.g, [g_raw(x) for x in avals]))); return (v, fv.ty[2])
         if path in ("Ok", "Err") and len(args) == 1 and self.spec.get("result_sum"):
             if path == "Ok":
                 t, ty = self.ex(args[0], env, B)
@@ -1120,11 +1146,11 @@ class Translator:
     def assigned_in(self, run, env):
         """dry run of a piece of translation to find which outer variables it assigns (in declaration order)"""
         rec = set()
-        saved_n, saved_ctx = self.n, self.ctx
+        saved_n, saved_ctx, saved_k = self.n, self.ctx, set(getattr(self, "killed", ()))
         try:
             run(rec)
         finally:
-            self.n, self.ctx = saved_n, saved_ctx
+            self.n, self.ctx, self.killed = saved_n, saved_ctx, saved_k
         return [v for v in env.visible() if v in rec]
 
     def block(self, blk, env, k):
